@@ -42,8 +42,10 @@ var harnesses = []harness{
 	{regexp.MustCompile(`^\(\*kcache\._watchSession\)\.stop/`), ".", "d7_test.go.txt", "TestReplayD7", "scenario: Watch() that returns only on context cancellation"},
 	{regexp.MustCompile(`^\(\*kcache\._watcher\)\.run/`), ".", "d4_test.go.txt", "TestReplayD4", "scenario: watch reconnect with the refresh period far away"},
 	{regexp.MustCompile(`^join\.IngressPods`), "join", "d6_test.go.txt", "TestReplayD6", "scenario: create/close cycles of IngressPods, goroutine census"},
+	{regexp.MustCompile(`^\(?\*?types/pod\.(_adapter|cache|subscription)\)|^types/pod\.(wrapEvent|newSubscription|newCache)`), "types/pod", "typed_layer_pod_test.go.txt", "TestReplayTypedLayerPod", "the real adapter / typed cache / event wrapper / typed subscription of package pod against the property's sentences"},
 	{regexp.MustCompile(`^types/pod\.NewMonitor\$`), "types/pod", "d8_test.go.txt", "TestReplayD8", "scenario: foreign-typed object on a typed controller's watch"},
 	{regexp.MustCompile(`^types/replicationcontroller\.PodsFilter/`), "types/replicationcontroller", "d3_test.go.txt", "TestReplayD3", "inputs: RC in another namespace; selector-less RC with template labels"},
+	{regexp.MustCompile(`^types/(service|deployment|replicaset|daemonset|statefulset|job|ingress)\.|^\(?\*?types/(pod|event|service)\.(nodeFilter|involvedFilter|serviceForFilter)|^types/(pod|event|service)\.(NodeFilter|InvolvedFilter|SelectorMatchFilter)`), "join", "typed_filter_search_test.go.txt", "TestReplaySearchTypedFilters", "bounded search: workload/ingress/node/event/selector-match filters over 2 namespaces x 3 selectors x 2 template label sets, up to 2 workloads, real functions vs executable ownership semantics"},
 	{regexp.MustCompile(`^assumed-contracts-never-a-replay$`), "filter", "assumed_contracts_test.go.txt", "TestAssumedContracts", "bounded stand-in for the assumed library contracts (labels, LabelSelectorAsSelector, reflect.DeepEqual, labels.Equals, sort.Slice, strconv.Atoi, errors.Wrap, meta helpers, time.Timer) over small universes"},
 	{regexp.MustCompile(`^\(?\*?filter\.|^filter\.`), "filter", "filter_search_test.go.txt", "TestReplaySearchFilters", "bounded search: filter terms up to depth 2 over a small universe, real Accept/Equals vs executable semantics"},
 }
